@@ -13,6 +13,11 @@ CHECK = {
         "rotmat_generic", "rotmat_r20_limit", "quaternion_generic", "quaternion_r20_limit",
         "quaternion_scale_almost_unit", "quaternion_scale_almost_unit_steep_pitch",
         "quaternion_scale_extreme_small", "quaternion_scale_extreme_large", "smart_near_duplicate_reinit",
+        "rigid_transformation3", "rigid_transformation3_axis_only", "api_call_semantics", "normaliser_call_semantics", "smart_object_semantics", "smart_argument_aliasing",
+        "smart_long_history_2p8", "smart_long_history_2p16",
+        "polar_scalar_overloads", "spherical_scalar_overloads", "coordinates_object_semantics",
+        "euler_equal_components", "euler_integer", "rotmat_exact_quarter_turns", "quaternion_exact_quarter_turns",
+        "normaliser_integer", "rot2d_special_values", "polar_special_values", "spherical_special_values",
         "normaliser_random", "normaliser_multiple_ulps", "normaliser_multiple_near", "normaliser_tiny",
         "rot2d", "polar_generic", "polar_axis", "polar_homogeneous",
         "spherical_generic", "spherical_pole", "spherical_axis", "spherical_homogeneous"],
@@ -25,6 +30,16 @@ CHECK = {
         "build.euler_matrix_vs_zyx.d", "build.euler_matrix_vs_zyx.f",
         "build.quaternion_vs_zyx.d", "build.quaternion_vs_zyx.f",
         "build.smart_vs_zyx.d", "build.smart_vs_euler_matrix.d", "build.smart_reinit_near_vs_zyx.d",
+        "build.rigid_transformation3_axis_only_vs_zyx.d", "build.rigid_transformation3_axis_only_vs_zyx.f",
+        "build.smart_long_history_vs_zyx.d", "smart.value_semantics.d", "smart.copy_identical.d", "smart.argument_aliasing.d",
+        "smart.times_vector.d", "smart.times_vector_call_forms.d", "smart.result_stable.d",
+        "api.rvalue_equals_lvalue.d", "api.rvalue_equals_lvalue.f", "api.result_over_argument.d", "api.result_over_argument.f",
+        "api.same_input_same_result.d", "api.same_input_same_result.f", "api.result_stable.d", "api.result_stable.f",
+        "coordinates.rvalue_equals_lvalue.d", "coordinates.rvalue_equals_lvalue.f", "coordinates.result_stable.d",
+        "coordinates.result_stable.f", "coordinates.object_semantics.d", "coordinates.object_semantics.f",
+        "polar.scalar_overloads_roundtrip.d", "polar.scalar_overloads_roundtrip.f", "polar.same_object_arguments.d",
+        "polar.same_object_arguments.f", "spherical.scalar_overloads_roundtrip.d", "spherical.scalar_overloads_roundtrip.f",
+        "spherical.same_object_arguments.d", "spherical.same_object_arguments.f",
         "proper.orthonormal.d", "proper.orthonormal.f", "proper.det.d", "proper.det.f",
         "normaliser.0_2pi.congruent.d", "normaliser.0_2pi.congruent.f",
         "normaliser.0_2pi.interval.d", "normaliser.0_2pi.interval.f",
@@ -53,11 +68,19 @@ CHECK = {
             "inputs in (-4pi,4pi): uniform, k*pi/2 (|k|<=8) +-0..3 ulps or +-1e-16..1e-3, +-0, denormals, tiny of either "
             "sign; planar angles like roll; 2D/3D points with norm 1e-6..1e6, uniform direction, on/next to the axes and "
             "coordinate planes, elevation log-spaced 1e-12..1e-2 from either pole, Cartesian and homogeneous containers, in "
-            "both directions (point first, polar/spherical coordinates first); "
+            "both directions (point first, polar/spherical coordinates first), in a third of the cases also through the scalar "
+            "overloads of PolarTransform/SphericalTransform and with one object for every reference parameter; 5% of the cases "
+            "take exact special values (equal angles, integer angles, exact quarter-turn matrices/quaternions with +-0 entries, "
+            "integer normaliser inputs, points with equal/integer/opposite components times a power of two); a quarter of the "
+            "cases re-do the calls with temporaries/moved arguments, assign results over their own argument, keep results bound "
+            "by reference across unrelated calls in both scalar types and sibling objects, and repeat the same input (bit-for-bit "
+            "comparisons); 40% of the double Euler cases copy/move/self-assign the SmartRotation3D, overwrite or destroy the "
+            "source, re-use the copy, and call init() with arguments aliasing its own R(); 1 case in 2000 / 250000 re-initialises "
+            "one object 2^8+k / 2^16+k times (near-duplicate walk, 3-cycle, or constant) before observing; "
             "non-trivial = not (axis-only rotation) and not (double normaliser input already inside (0.01, pi-0.01)) and "
             "not (zero planar angle) and not (generic double Cartesian point well away from the poles), i.e. outside what "
             "the unit tests sample",
-    "level_text": "exploration: the real conversion functions are executed on 4e5 (quick) / 6e7 (thorough) generated inputs "
+    "level_text": "exploration: the real conversion functions are executed on 2e6 (quick) / 6e7 (thorough) generated inputs "
                   "concentrated on the wrap-around points, the pitch / R(2,0) limits, the interval ends of the normalisers, "
                   "the poles and the axes, in float and double; every result is compared with the long-double definition "
                   "(Rz*Ry*Rx, Hamilton product, remainder modulo 2*pi) or with the input of the round trip under a "
@@ -78,7 +101,14 @@ CHECK = {
         "matrices); norms log-spaced over what normalized() can represent (|q|^2 finite and normal): "
         "1e-18..1e18 float, 1e-150..1e150 double",
         "the azimuth/elevation conventions of the polar/spherical maps and the sign convention of the 2x2 pair are not part "
-        "of the statement and are not checked; rigid_transformation3 (Transformation.hpp) is not named by the statement and "
-        "is not checked",
+        "of the statement and are not checked",
+        "rigid_transformation3 (Transformation.hpp) is not among the conversions the statement names and has no inverse: only "
+        "what holds for every produced matrix is demanded of it (proper rotation, affine last row) plus agreement with Z-Y-X "
+        "when at most one angle is non-zero; for generic angles it composes Rx*Ry*Rz (X-Y-Z), which is NOT the Z-Y-X rotation of "
+        "the other builders -- reported to the maintainers of the property list, not raised as a violation",
+        "SmartRotation3D::dRTdAngles and the dRdAngle* getters are only compared bit-for-bit between a copy and a fresh object "
+        "(value semantics); their values are property C12's",
+        "bit-for-bit reproducibility of a pure function on identical inputs within one process is assumed legitimate to demand "
+        "(fixed-size Eigen types, no runtime-dependent code paths)",
         "g++ 12 ASan+UBSan runtime; asserts live (no -DNDEBUG)"],
 }
